@@ -97,6 +97,13 @@ static void fs_dstack(size_t wi, const std::string &proto, const std::string &ki
 	case_end(desc, acc.judged > 0, acc.sample, acc.runs, (long long)acc.distinct.size());
 }
 
+// type of a QR-encoded card as the library itself opens it (both players contribute their secret bits)
+static size_t lib_open_type(World &W, SchindelhauerTMCG &tm, const TMCG_Card &c) { TMCG_CardSecret cs(c.z.size(), c.z[0].size()); tm.TMCG_SelfCardSecret(c, cs, *W.skA, 0); tm.TMCG_SelfCardSecret(c, cs, *W.skB, 1); return tm.TMCG_TypeOfCard(cs); }
+static std::string qstmt_json(World &W, SchindelhauerTMCG &tm, const QStmt &st) {
+	std::vector<size_t> a, b; for (size_t i = 0; i < st.s.size(); i++) a.push_back(lib_open_type(W, tm, st.s[i])); for (size_t i = 0; i < st.s2V.size(); i++) b.push_back(lib_open_type(W, tm, st.s2V[i]));
+	return J().kv("s", stack_text(st.s)).kv("s2_prover_view", stack_text(st.s2P)).kv("s2_verifier_view", stack_text(st.s2V)).kv("witness_pi", perm_str(st.pi)).arrn("types_of_s_opened_by_library", a).arrn("types_of_s2_opened_by_library", b).str();
+}
+
 // ============================================================ (a) QR stack family
 static void fs_qstack(bool cyclic, const std::string &kind) {
 	std::string proto = cyclic ? "tmcg/stackeq-qr-cyclic" : "tmcg/stackeq-qr";
@@ -112,7 +119,7 @@ static void fs_qstack(bool cyclic, const std::string &kind) {
 		c.world = g_worlds[0].tag; c.proto = proto; c.variant = I->variant; c.n = st->n; c.kappa = kappa; c.sa = ctx.seed; c.sb = nextsb();
 		std::vector<int> coins = fs_coins(rg, kappa, P, want_prepared); RunOpt o; o.cfgV = script_coins(coins);
 		RunResult R = run(*I, c.sa, c.sb, o); auto vl = written(R, 1);
-		judge_fs_cc(acc, c, R, P, observed_bits(vl, 1, kappa), kappa, coins, stmt_json(*st));
+		judge_fs_cc(acc, c, R, P, observed_bits(vl, 1, kappa), kappa, coins, qstmt_json(W, tm, *st));
 	};
 	if (kind == "noncyclic") {
 		for (size_t n : (quick ? std::vector<size_t>{3, 4} : std::vector<size_t>{3, 4, 5})) {
@@ -237,7 +244,7 @@ static void fs_scalar(size_t wi, const std::string &proto, const std::string &ki
 				if (kind == "typechange" && proto == "vtmf/mask" && dec.plain(pubv(*I, "c_1"), pubv(*I, "c_2")) == mpz_dec(pubv(*I, "m"))) throw std::logic_error("C04 harness: altered masking still decrypts to m");
 				if (kind == "typechange" && proto == "vtmf/remask" && dec.plain(pubv(*I, "c_1"), pubv(*I, "c_2")) == dec.plain(pubv(*I, "c'_1"), pubv(*I, "c'_2"))) throw std::logic_error("C04 harness: altered re-masking still decrypts equally");
 				if (kind == "typechange" && proto == "tmcg/maskcard-vtmf" && dec.plain(pubv(*I, "c.c_1"), pubv(*I, "c.c_2")) == dec.plain(pubv(*I, "cc.c_1"), pubv(*I, "cc.c_2"))) throw std::logic_error("C04 harness: altered card mask still decrypts equally");
-				FsCase c; c.world = g_worlds[wi].tag; c.proto = proto; c.variant = I->variant; c.kind = kind; c.n = n; c.pos = a.handle == "m[*]" ? (long)hi : -1; c.detail = a1.handle + ":" + a1.how; c.sa = ctx.seed;
+				FsCase c; c.world = g_worlds[wi].tag; c.proto = proto; c.variant = I->variant; c.kind = kind; c.n = n; c.pos = a.handle == "m[*]" ? (long)hi : -1; c.detail = a1.handle + ":" + a1.how + " rep=" + std::to_string(rep); c.sa = ctx.seed;
 				if (with_both) { c.strategy = "both"; c.sb = nextsb(); RunResult R = run(*I, c.sa, c.sb); judge_fs(acc, c, R, pubs_json(*I)); }
 				if (with_replay) {   // recorded honest transcript of the original statement, same seeds => same verifier coins
 					c.strategy = "vonly"; c.sb = sb0; ProveFn keep = I->prove; I->prove = replayer(R0.log); RunResult R = run(*I, c.sa, c.sb); I->prove = keep; judge_fs(acc, c, R, pubs_json(*I));
@@ -350,7 +357,7 @@ static void fs_qmask(const std::string &kind) {
 				std::unique_ptr<Instance> I(qmask_instance(W, st, kappa)); RunOpt o; o.cfgV = script_coins(coins);
 				FsCase c; c.world = g_worlds[0].tag; c.proto = proto; c.variant = I->variant; c.kind = kind; c.strategy = strat; c.pos = (long)comp; c.detail = "component z[" + std::to_string(kk) + "][" + std::to_string(ww) + "]: " + detail; c.kappa = kappa; c.sa = ctx.seed; c.sb = nextsb();
 				RunResult R = run(*I, c.sa, c.sb, o); auto vl = written(R, 1);
-				std::string stj = J().kv("c", card_text(st->c)).kv("cc_prover_view", card_text(st->ccP)).kv("cc_verifier_view", card_text(st->ccV)).kv("type_c", (long long)qro.type(st->c)).kv("type_cc", (long long)qro.type(st->ccV)).str();
+				std::string stj = J().kv("c", card_text(st->c)).kv("cc_prover_view", card_text(st->ccP)).kv("cc_verifier_view", card_text(st->ccV)).kv("type_c", (long long)qro.type(st->c)).kv("type_cc", (long long)qro.type(st->ccV)).kv("type_c_opened_by_library", (long long)lib_open_type(W, tm, st->c)).kv("type_cc_opened_by_library", (long long)lib_open_type(W, tm, st->ccV)).str();
 				judge_fs_cc(acc, c, R, P, observed_bits(vl, comp * (kappa + 1) + 1, kappa), kappa, cc, stj);
 			}
 		}
@@ -403,6 +410,8 @@ static void judge_guess(GuessAcc &ga, const std::string &proto, const std::strin
 	std::string g = bits_str(guess); bool eq = observed == g;
 	count("guess_pairs"); count("guess_pairs/" + proto + "/kappa=" + std::to_string(kappa)); ga.pairs++; ga.observed_strings.insert(observed);
 	J w; w.kv("proto", proto).kv("statement", stmt).kv("kappa", (unsigned long long)kappa).kv("guess", g).kv("scripted_coins", bits_str(script)).kv("observed_challenges", observed).kv("verifier_verdict", R.ok).kv("seedA", (unsigned long long)ctx.seed).kv("seedB", (unsigned long long)sb);
+	if (bits_str(script).compare(0, observed.size(), observed) != 0 || observed.size() > script.size()) { count("guess_coin_control_failed"); violation("C04/harness/coin-control/" + proto, "HARNESS ERROR: the challenge bits on the wire are not the scripted verifier coins", w.str()); }
+	else count("guess_coin_control_ok");
 	if (R.ok && eq) { count("guess_accepted_equal"); ga.acc_eq++; }
 	else if (R.ok && !eq) { count("guess_accepted_unequal"); violation("C04/guess-accepted/" + proto, "guessing prover accepted although its guess differs from the observed challenge string", w.raw("false_statement", stj).arr("transcript_tail", transcript_tail(R)).str()); }
 	else if (!R.ok && eq) { count("guess_rejected_equal"); violation("C04/harness/guess-rejected/" + proto, "HARNESS ERROR: guessing prover rejected although guess == observed challenge string", w.kv("exc", R.exc).arr("transcript_tail", transcript_tail(R)).str()); }
@@ -416,7 +425,6 @@ static void judge_guess(GuessAcc &ga, const std::string &proto, const std::strin
 	if (ga.sample.empty() || (R.ok && ga.sample.find("\"verifier_verdict\":true") == std::string::npos)) ga.sample = w.str();
 }
 
-struct GuessSetup { std::string proto, stmt; };
 // one (proto, statement kind, kappa): build the false statement once, then run the listed (guess, coins) pairs
 static void guess_case(const std::string &proto, const std::string &stmt, unsigned long kappa, size_t n, const std::vector<std::pair<unsigned long long, unsigned long long>> &pairs_small, const std::vector<std::pair<std::vector<int>, std::vector<int>>> &pairs_big, const std::string &label, bool exhaustive_coins) {
 	std::string desc = "guess " + proto + " " + stmt + " kappa=" + std::to_string(kappa) + " " + label;
@@ -426,8 +434,10 @@ static void guess_case(const std::string &proto, const std::string &stmt, unsign
 	uint64_t runidx = 0; auto nextsb = [&]() { return (uint64_t)k * 100003 + (++runidx); };
 	std::vector<std::pair<std::vector<int>, std::vector<int>>> pairs = pairs_big; for (auto &p : pairs_small) pairs.push_back(std::make_pair(bits_of(p.first, kappa), bits_of(p.second, kappa)));
 	bool cyclic = stmt == "noncyclic-as-rotation" || stmt == "unrelated-cyclic";
-	std::function<ProveFn(const std::vector<int> &)> mkprover; VerifyFn verify; std::string stj; size_t first_line = 1, stride_skip = 0; (void)stride_skip;
-	std::vector<std::shared_ptr<void>> keep; bool really_false = false; size_t pre_coins = 0;
+	std::function<ProveFn(const std::vector<int> &)> mkprover; VerifyFn verify; std::string stj; size_t first_line = 1;
+	bool really_false = false; size_t pre_coins = 0;
+	for (int attempt = 0; attempt < 20 && !really_false; attempt++) {
+	if (attempt) count("guess_statement_retry");
 	if (proto == "tmcg/stackeq-vtmf") {
 		Dec dec(W); auto tm = PR_TM(kappa, 2, 6); auto tmV = PR_TM(kappa, 2, 6);
 		std::shared_ptr<DStmt> st;
@@ -468,6 +478,7 @@ static void guess_case(const std::string &proto, const std::string &stmt, unsign
 		verify = [=](std::istream &in, std::ostream &out) { TMCG_CardSecret cs(2, 1); return tmV->TMCG_VerifyCardSecret(*c, cs, w->ring->keys[0], 0, in, out); };
 		stj = J().kv("c", card_text(*c)).kv("true_bit", (long long)(isqr ? 0 : 1)).kv("claimed_bit", (long long)claim).str();
 	} else throw std::logic_error("C04 harness: unknown guess proto");
+	}
 	if (!really_false) { count("guess_statement_not_false_skipped"); tl_rng = nullptr; case_end(desc, false, "", 0, 0); return; }
 	for (auto &pr_ : pairs) {
 		Instance I; I.proto = proto; I.interactive = true; I.prove = mkprover(pr_.first); I.verify = verify;
@@ -479,9 +490,7 @@ static void guess_case(const std::string &proto, const std::string &stmt, unsign
 	}
 	if (exhaustive_coins) {   // all 2^kappa coin strings for one guess: exactly one accepted, every string observed
 		count("guess_exhaustive_rows");
-		if (ga.observed_strings.size() == ((size_t)1 << kappa) && ga.acc_eq == 1) count("guess_exhaustive_rows_exactly_one_accepted");
-		if (ga.observed_strings.size() != ((size_t)1 << kappa) && ga.acc_eq + ga.rej_neq == ga.pairs)
-			violation("C04/harness/coin-control/" + proto, "HARNESS ERROR: scripted verifier coins did not produce all 2^kappa challenge strings", J().kv("kappa", (unsigned long long)kappa).kv("distinct_observed", (long long)ga.observed_strings.size()).str());
+		if (ga.acc_eq == 1 && ga.acc_eq + ga.rej_neq == ga.pairs && ga.pairs == (1LL << kappa)) count("guess_exhaustive_rows_exactly_one_accepted");
 	}
 	tl_rng = nullptr;
 	case_end(desc, ga.pairs > 0, ga.sample, ga.pairs, ga.pairs);
